@@ -4,7 +4,7 @@ types (so a rename does not matter); activation fields are resolved by name."""
 import json
 import os
 
-from .facts import Facts, AnalysisBroken, VERIF, show
+from .facts import Facts, AnalysisBroken, VERIF, show, walk_all_exprs, walk_expr
 from .symex import (Symex, Val, C, INT_MAX, is_const, lin_parts, t_add, t_show, lp_show, type_range)
 
 THIS = (('this',),)
@@ -77,9 +77,26 @@ class VMModel:
             if role in by:
                 raise AnalysisBroken('two VM fields qualify for role %s: %s, %s' % (role, by[role], name))
             by[role] = name
+        ints = [fld['name'] for fld in self.vm['fields'] if fld['cty'] == 'int']
+        not_ip = set()
+        if len(ints) > 1:
+            # several integer fields: the instruction pointer is the one that indexes the code array
+            used = set()
+            for fn in self.facts.functions_in('VM/src/vm.cpp'):
+                for e in walk_all_exprs(fn.get('body')):
+                    if e.get('k') == 'call' and (e.get('callee') or '').endswith('::operator[]') and e.get('obj') is not None and \
+                            show(e['obj']).endswith('code.code') and e.get('args'):
+                        for x in walk_expr(e['args'][0]):
+                            if x.get('k') == 'member' and x.get('name') in ints:
+                                used.add(x['name'])
+            if len(used) == 1:
+                not_ip = set(ints) - used
         for fld in self.vm['fields']:
             c = fld['cty'].replace('std::__cxx11::', 'std::')
-            if c == 'bool':
+            if fld['name'] in not_ip:
+                by.setdefault('other', [])
+                by['other'].append(fld['name'])
+            elif c == 'bool':
                 put('stepping', fld['name'])
             elif c == 'int':
                 put('ip', fld['name'])
